@@ -23,6 +23,10 @@ def stats_chain(r, coin, nb, mode):
             # two transactions of the same value AND the same stripped size in one block, both beating everything so far; and a repeat in a later block
             big = 10**12 + h // 2
             for _ in range(2): txs.append(Tx([(gen.rb(r, 32), 1, b'\x00' * (150 + h), 5)], [(big, P2PKH(gen.rb(r, 20)))]))
+        if mode == 'ties' and h % 2 == 0:
+            # the largest transaction of the block uses over-long CompactSize encodings (its size is the size of its bytes on disk without witness data)
+            wd = {'in': r.choice([3, 5, 9]), 'out': r.choice([3, 5, 9]), ('isl', 0): r.choice([3, 5, 9]), ('osl', 0): r.choice([3, 5, 9])}
+            txs.append(Tx([(gen.rb(r, 32), 1, b'\x00' * (400 + h), 5)], [(3, P2PKH(gen.rb(r, 20)))], widths=wd, witness=([[gen.rb(r, 600)]] if h % 4 == 0 else None)))
         if mode == 'types' and h == 0:
             # a coinbase-looking tx that is NOT the first tx, and near-coinbase inputs
             txs.append(Tx([(b'\x00' * 32, 0xffffffff, b'\x01', 0)], [(60 * 10**8, P2PKH(gen.rb(r, 20)))]))
@@ -36,7 +40,7 @@ def stats_chain(r, coin, nb, mode):
 def explore(ck):
     r = ck.rng; quick = ck.tier == 'quick'
     ck.rule = ('simplestats on chains built for: ties of both maxima inside one block and across blocks, non-monotonic timestamps incl. 0 and 2^32-1 (clamped gaps, sums beyond 2^32), all-zero values, every '
-               'script type incl. first occurrences, huge values, coinbase look-alikes, ranges, heights around 210000*k and 13 440 000 (index windows); every figure of the report is parsed and compared with '
+               'script type incl. first occurrences, huge values, coinbase look-alikes, a largest transaction with over-long CompactSize encodings, ranges, heights at, next to and between the halving boundaries 210000*k and 13 440 000 (index windows starting there); every figure of the report is parsed and compared with '
                'the model (integers exactly, means as exact rationals within the printed rounding); get_mean and get_base_reward additionally through their hooks (sums around 2^32 and 2^53, every halving '
                'index 0..70), debug and release profile. Non-trivial: >= 2 blocks and >= 2 script types and (a tie for a maximum or a sum >= 2^32); distinct by case.')
     cases = []
@@ -49,7 +53,7 @@ def explore(ck):
         if i % 4 == 3 and len(blocks) > 2: c.start = 1; c.end = r.choice([None, len(blocks) - 1])
         c.meta.update(mode=mode); cases.append(c)
     # height windows around halvings and the 64th halving
-    for H in ([209999, 420000, 13439999, 13440000] if quick else [1, 209999, 210000, 419999, 420000, 6929999, 6930000, 13229999, 13439999, 13440000, 13440001, 14000000]):
+    for H in ([209999, 210001, 420000, 630005, 13439999, 13440000] if quick else [1, 210001, 250000, 630005, 6930001, 209999, 210000, 419999, 420000, 6929999, 6930000, 13229999, 13439999, 13440000, 13440001, 14000000]):
         blocks = stats_chain(r, 'bitcoin', 3, 'big')
         c = Case('hw%d' % H, 'bitcoin').simple_layout(blocks, start_height=H - 1); c.start = H; c.meta.update(mode='halving'); cases.append(c)
     def nontrivial(c, m):
